@@ -6,7 +6,7 @@ p = os.path.join(V, "DESIGN.md")
 s = open(p).read()
 B, E = "<!-- BEGIN design_notes -->", "<!-- END design_notes -->"
 body = [B, "", "## Appendix B — per-property notes as built (generated from design_notes/*.md by tools/merge_notes.py)", ""]
-for f in sorted(glob.glob(os.path.join(V, "design_notes", "C*.md"))):
+for f in sorted(glob.glob(os.path.join(V, "design_notes", "C*.md"))) + sorted(glob.glob(os.path.join(V, "design_notes", "X*.md"))):
     txt = open(f).read().strip()
     txt = re.sub(r"^# ", "### ", txt, flags=re.M) if txt.startswith("# ") else "### %s\n\n%s" % (os.path.basename(f)[:-3], txt)
     txt = re.sub(r"^## ", "#### ", txt, flags=re.M)
